@@ -640,7 +640,8 @@ impl Composite for Coerce {
             Self::NoOp(x) => Ok(Self::NoOp(x)),
             Self::IntoAssets(x) => Ok(Self::NoOp(x.into_assets()?)),
             Self::IntoDatum(x) => Ok(Self::NoOp(x.into_datum()?)),
-            Self::IntoScript(x) => todo!(),
+            // scripts are resolved by the chain-specific compiler; there is nothing to fold here
+            Self::IntoScript(x) => Ok(Self::IntoScript(x)),
         }
     }
 }
